@@ -25,7 +25,7 @@ THEOREMS = ["PyOak.C11." + t for t in [
     "classify_spec", "specVerdict_unique", "childShape_mentionsNode", "prop_hides_no_node",
     "classify_newtype", "classify_erase", "classify_erase_needs_base",
     "defCheck_raised_sound", "classOutcome_eq", "classOutcome_none_iff", "classOutcome_some",
-    "effective_nodup", "fields_partition", "verdict_inherited", "verdict_overridden", "chainOutcome_get"]]
+    "effective_nodup", "fields_partition", "verdict_inherited", "verdict_overridden", "chainOutcome_get", "classOutcome_flatten"]]
 PARTIAL: list[str] = []
 RULE = ("generated frozen dataclasses deriving from ASTNode, 1-3 classes per inheritance chain (inherited and overriding "
         "fields), field annotations = type terms of depth <= 3 over {int str bool float bytes Any Literal Enum None, "
@@ -35,7 +35,11 @@ RULE = ("generated frozen dataclasses deriving from ASTNode, 1-3 classes per inh
         "typing generics, whole-annotation vs inner quoting of forward references, and its own order of the members of "
         "every union (None first / in the middle / last, reversed, shuffled); every generated module defines fresh node "
         "classes (pyoak's predicates are lru_cached and unions that differ only in member order compare equal), and the "
-        "memo tables of pyoak.typing are cleared before a random half of the cases; thorough adds every term of depth "
+        "memo tables of pyoak.typing are cleared before a random half of the cases; multiple-inheritance families (two / "
+        "three node bases, diamonds, combined classes with an empty and with a non-empty body, marker subclasses, "
+        "combined classes of combined classes) with child / property / invalid annotations spread over the bases, "
+        "every class of the family observed for EVERY dataclass field and compared with the model on the replay "
+        "of the declarations along the reversed MRO; thorough adds every term of depth "
         "<= 2 over 5 leaves; non-trivial = some annotation has depth >= 1; distinct by request line + spelling")
 TRUSTED = ["typing.get_type_hints / get_args / get_origin / NewType.__supertype__ / issubclass on collections.abc "
            "(typing-module introspection): the term sent to the model is the term the source text was rendered from",
@@ -51,6 +55,9 @@ ASSUMPTIONS = [
     "forward references point to node classes only; with the `|` spelling and plain annotations a union that has a "
     "forward reference is written as a fully quoted annotation (`\"X\" | None` is a TypeError of Python itself)",
     "which of the two phases (class definition / first use) raises InvalidFieldAnnotations is not compared",
+    "multiple inheritance: hierarchies on which dataclasses (resolved fields of every base, reversed MRO) and "
+    "typing.get_type_hints (own annotations along the MRO) disagree about the type of a field are not generated "
+    "(diamond whose later branch overrides a field of the common base: `A.x: int; B(A).x: Node; C(A); D(C, B)`)",
 ]
 BUDGET = {"quick": 200, "thorough": 1800}
 
@@ -71,11 +78,20 @@ NAMED = [
     ("coll", "frozenset", [("atom", "str")]), ("coll", "sequence", [("atom", "int")]),
     ("coll", "mapping", [("atom", "str"), ("vtuple", ("atom", "int"))]),
     ("union", [("atom", "int"), ("none",)]), ("union", [("atom", "int"), ("atom", "str")]),
+    # a NewType derived from a NewType of a node class, below the top level
+    ("vtuple", ("nt", ("nt", ("node", 0)))), ("union", [("nt", ("nt", ("node", 0))), ("none",)]),
+    ("union", [("none",), ("nt", ("nt", ("nt", ("node", 1))))]), ("coll", "tuple", [("nt", ("nt", ("node", 2))), ("node", 0)]),
+    ("union", [("node", 1), ("nt", ("nt", ("node", 0)))]), ("vtuple", ("union", [("nt", ("nt", ("node", 0))), ("node", 2)])),
+    ("vtuple", ("nt", ("nt", ("atom", "int")))),
     # None first / in the middle of a union (typing keeps the order; `==` on unions ignores it)
     ("union", [("none",), ("node", 0)]), ("union", [("none",), ("fwd", 0)]), ("union", [("node", 0), ("none",), ("node", 2)]),
     ("union", [("none",), ("nt", ("node", 0))]), ("union", [("none",), ("atom", "int")]),
     ("union", [("atom", "int"), ("none",), ("atom", "str")]),
     # rejected shapes
+    ("union", [("nt", ("nt", ("node", 0))), ("atom", "int")]), ("coll", "frozenset", [("nt", ("nt", ("node", 0)))]),
+    ("coll", "sequence", [("nt", ("nt", ("node", 1)))]), ("coll", "mapping", [("atom", "str"), ("nt", ("nt", ("node", 0)))]),
+    ("vtuple", ("union", [("nt", ("nt", ("node", 0))), ("none",)])), ("coll", "list", [("nt", ("nt", ("node", 0)))]),
+    ("vtuple", ("nt", ("nt", ("vtuple", ("node", 0))))), ("vtuple", ("nt", ("nt", ("coll", "list", [("atom", "int")])))),
     ("vtuple", ("union", [("none",), ("node", 0)])), ("vtuple", ("union", [("none",), ("fwd", 0)])),
     ("coll", "tuple", [("node", 0), ("union", [("none",), ("node", 1)])]),
     ("vtuple", ("union", [("node", 0), ("none",), ("node", 2)])), ("coll", "tuple", [("union", [("none",), ("node", 0), ("node", 2)])]),
@@ -228,6 +244,165 @@ def random_levels(rng, n_levels):
     return levels
 
 
+# ---------------------------------------------------------------- multiple inheritance
+
+HIER_SHAPES = {
+    # name: bases of every class (indices of earlier classes, [] = ASTNode), index of the first "combined" class
+    "mi2": [[], [], [0, 1]],
+    "mi2+marker": [[], [], [0, 1], [2]],
+    "mi3": [[], [], [], [0, 1, 2]],
+    "mi3+marker": [[], [], [], [2, 0, 1], [3]],
+    "diamond": [[], [0], [0], [1, 2]],
+    "diamond+marker": [[], [0], [0], [2, 1], [3], [4]],
+    "chain+mi": [[], [0], [], [1, 2]],
+    "marker-base": [[], [0], [], [2, 1]],
+    "mi-of-mi": [[], [], [0, 1], [], [2, 3]],
+    "mi-of-mi-rev": [[], [], [1, 0], [], [3, 2], [4]],
+}
+INVALID_FWD = [
+    ("coll", "list", [("fwd", 0)]), ("union", [("fwd", 0), ("atom", "int")]), ("coll", "frozenset", [("fwd", 1)]),
+    ("vtuple", ("union", [("fwd", 0), ("none",)])), ("coll", "tuple", [("fwd", 0), ("atom", "str")]),
+    ("coll", "mapping", [("atom", "str"), ("fwd", 0)]), ("vtuple", ("vtuple", ("fwd", 1))),
+    ("union", [("none",), ("vtuple", ("fwd", 0))]), ("coll", "sequence", [("nt", ("node", 0)), ]),
+]
+
+
+def _field_type(rng, want):
+    """an annotation whose documented verdict is `want`"""
+    if want == "invalid-late":
+        # invalid, and caught only at first use: the forward reference makes the definition-time check give up
+        t = rng.choice(INVALID_FWD)
+        if not z.mentions_fwd(t):
+            return t
+        return t
+    bias = {"child": "node", "prop": "prop", "reject": "mixed"}[want]
+    for _ in range(200):
+        t = z.random_ty(rng, rng.choice([0, 1, 1, 2, 2, 3]), bias)
+        if z.spec_verdict(t) == want:
+            return t
+    return {"child": ("node", 0), "prop": ("atom", "int"), "reject": ("coll", "list", [("node", 0)])}[want]
+
+
+def random_hier(rng):
+    """(shape name, levels, bases): child / property / invalid annotations spread over the different bases; combined
+    classes with an empty or a non-empty body; marker subclasses (empty body, one base)"""
+    for _ in range(50):
+        shape = rng.choice(sorted(HIER_SHAPES))
+        bases = HIER_SHAPES[shape]
+        pool = ["f", "g", "h", "k", "m", "n", "p", "q"]
+        rng.shuffle(pool)
+        declared: list[str] = []
+        levels = []
+        late_bad = rng.random() < 0.35          # one base carries an invalid annotation that only first use can see
+        bad_at = rng.choice([k for k, b in enumerate(bases) if len(b) <= 1 and k < len(bases) - 1]) if late_bad else -1
+        for k, bs in enumerate(bases):
+            marker = len(bs) == 1 and (shape.endswith("marker") and k >= len(bases) - (2 if shape == "diamond+marker" else 1)
+                                       or shape == "marker-base" and k == 1)
+            combined = len(bs) >= 2
+            fields = []
+            if marker or (combined and rng.random() < 0.55):
+                n = 0
+            elif combined:
+                n = rng.choice([1, 1, 2])
+            else:
+                n = rng.choice([1, 2, 2, 3])
+            for _j in range(n):
+                if declared and rng.random() < (0.45 if combined else 0.15):
+                    fn = rng.choice(declared)       # same name as a field of another class: override / clash
+                else:
+                    fn = pool[len(declared) % len(pool)] if rng.random() < 0.8 else rng.choice(pool)
+                if any(fn == x for x, _ in fields):
+                    continue
+                want = rng.choice(["child", "child", "prop", "prop", "reject"] if k == len(bases) - 1 or combined
+                                  else ["child", "child", "prop", "prop", "prop"])
+                fields.append((fn, _field_type(rng, want)))
+                if fn not in declared:
+                    declared.append(fn)
+            if k == bad_at:
+                fn = next((x for x in pool if x not in declared), "z")
+                fields.append((fn, _field_type(rng, "invalid-late")))
+                declared.append(fn)
+                if not any(z.mentions_fwd(t) for _, t in fields):
+                    fn2 = next((x for x in pool if x not in declared), "y")
+                    fields.append((fn2, ("fwd", 0)))
+                    declared.append(fn2)
+                rng.shuffle(fields)
+            levels.append(fields)
+        try:
+            h = z.Hier(levels, bases, z.Spelling(False, False, False, False))
+        except TypeError:
+            continue
+        if h.coherent():
+            return shape, levels, bases
+    return "mi2", [[("f", ("node", 0))], [("g", ("atom", "int"))], []], HIER_SHAPES["mi2"]
+
+
+def judge(eff, r, k):
+    """the property evaluated directly on the observation of one class (independent of the Lean model)"""
+    fail = None
+    sig_t = None
+    types_ = dict(eff)
+    deepest = max((t for _, t in eff), key=z.depth, default=("atom", "int"))
+    if r[0] == "other":
+        fail = f"class {k}: exception {r[1]} instead of a classification or InvalidFieldAnnotations"
+        ok_fields = [t for _, t in eff if z.spec_verdict(t) != "reject"]
+        sig_t = max(ok_fields, key=z.depth) if ok_fields else deepest
+    elif r[0] == "ok":
+        seen = [fn for fn, _ in r[1]]
+        if sorted(seen) != sorted(types_):
+            fail = f"class {k}: dataclass fields {seen} but the declarations resolve to {list(types_)}"
+        for fn, v in r[1]:
+            t = types_.get(fn, ("atom", "int"))
+            if v in ("both", "neither"):
+                fail = fail or f"class {k}: field {fn} is in {v} of get_child_fields / get_property_fields"
+                sig_t = sig_t or t
+            elif v == "prop" and z.mentions_node(t):
+                fail = fail or f"class {k}: field {fn}: {z.show(t)} mentions a node class and is a property"
+                sig_t = sig_t or t
+            elif v != z.spec_verdict(t):
+                sig_t = sig_t or t
+    elif not any(z.spec_verdict(t) == "reject" for _, t in eff):
+        sig_t = deepest
+    return fail, sig_t
+
+
+def hier_cases(shape, levels, bases, rng):
+    """one hierarchy, rendered with plain and with postponed annotations (own union member orders): one model
+    comparison per class that could be defined, plus the spelling-invariance oracle"""
+    bits = [rng.random() < 0.5 for _ in range(6)]
+    spellings = [z.Spelling(False, bits[0], bits[1], bits[2]), z.Spelling(True, bits[3], bits[4], bits[5])]
+    seen = []
+    kind = "hier/" + shape
+    for i, sp in enumerate(spellings):
+        lv = levels if i == 0 else [[(fn, z.permute_unions(t, rng)) for fn, t in lvl] for lvl in levels]
+        if rng.random() < 0.5:
+            z.clear_predicate_caches()
+        h = z.Hier(lv, bases, sp)
+        order = list(range(len(lv)))
+        rng.shuffle(order)                       # order of first use among the classes
+        results, phases = z.run_hier(h, order)
+        for p in phases:
+            _phase_stats["reject_at_definition" if p == "def" else "reject_at_first_use"] += 1
+        desc0 = f"[{sp.tag()}] " + " ;; ".join(s_.strip().replace("\n", " ⏎ ") for s_ in h.sources)
+        for k in sorted(results):
+            eff = h.effective(k)
+            fail, sig_t = judge(eff, results[k], k)
+            if sig_t is None:
+                sig_t = max((t for _, t in eff), key=z.depth, default=("atom", "int"))
+            body = "empty" if not lv[k] else "own"
+            sig = (f"hier|{shape}|class{k}-{len(bases[k])}bases-{body}|{'postponed' if sp.postponed else 'plain'}|"
+                   f"{abstract(sig_t)}")
+            yield Case(kind, dumps(z.request_class(h, k)), dumps(z.canon([results[k]])),
+                       True, f"class C{k}_{h.uid} of " + desc0, oracle_fail=fail, sig=sig)
+        seen.append((sp, {k: z.canon([r]) for k, r in results.items()}, desc0))
+    fail = None
+    if seen[0][1] != seen[1][1]:
+        fail = (f"verdicts differ between spellings / union member orders {seen[0][0].tag()} and {seen[1][0].tag()}: "
+                f"{dumps(sorted(seen[0][1].items()))} vs {dumps(sorted(seen[1][1].items()))}")
+    yield Case(kind + "/spelling-invariance", None, None, True, seen[0][2], oracle_fail=fail,
+               sig=f"spelling|hier|{shape}")
+
+
 def cases(rng: random.Random, tier: str):
     quick = tier == "quick"
     # 1. the shapes the statement names
@@ -240,7 +415,7 @@ def cases(rng: random.Random, tier: str):
             chosen = sps
         yield from variants([[("f", t)]], rng, "named", chosen)
     # 2. random single classes
-    for _ in range(500 if quick else 6000):
+    for _ in range(350 if quick else 6000):
         n = rng.choice([1, 1, 2, 3])
         fields = []
         for j in range(n):
@@ -248,9 +423,13 @@ def cases(rng: random.Random, tier: str):
             fields.append(("fgh"[j], t))
         yield from variants([fields], rng, "single")
     # 3. inheritance chains
-    for _ in range(350 if quick else 4000):
+    for _ in range(220 if quick else 4000):
         yield from variants(random_levels(rng, rng.choice([2, 2, 3])), rng, "chain")
-    # 4. exhaustive small scope
+    # 4. multiple inheritance: two or three node bases, diamonds, empty-body combined classes, marker subclasses
+    for _ in range(130 if quick else 2000):
+        shape, levels, bases = random_hier(rng)
+        yield from hier_cases(shape, levels, bases, rng)
+    # 5. exhaustive small scope
     if not quick:
         atoms = [("atom", "int"), ("none",), ("node", 0), ("node", 1), ("fwd", 0)]
         for i, t in enumerate(z.all_terms(atoms, 2)):
